@@ -437,8 +437,8 @@ func writeEvidence(prop, tier string, seed int, pr *propRun, lock []lockEntry, v
 			}
 		}
 		for _, o := range pr.Obligs {
-			if unp[o.Name] {
-				continue
+			if unp[o.Name] || (o.Kind == "ovf" && o.Status != "unsat") {
+				continue // not claimed (listed under unproved_not_claimed)
 			}
 			n++
 			solverMs += o.Ms
